@@ -10,9 +10,12 @@
    Arguments of Go type uint are Z with the premise 0 <= num (no upper bound is needed: the model's N is unbounded).
 
    Proof style: unfold both sides, move every Z operation onto N through the of_N_* bridge lemmas (autorewrite),
-   case analysis on every condition, lia.  Loops: the generated `while` term is taken out of the generated definition;
-   the state tuple is addressed through shape-independent constructors chosen by Ltac (index loop: (b, i); range loop:
-   (i', b)), so that changing the loop form in the source does not invalidate the script. *)
+   case analysis on every condition, lia.  Loops: Hoare-style rules for the loop combinator (Proofs/GoSemFacts.v:
+   while_rule, while_exit), one obligation = one symbolic iteration; the bulk functions keep ONE invariant through all
+   their loops (bulk_facts) and the tactic searches what depends on the way the source is written — the shape of the
+   state tuple (index loop (b, i) / range loop (i', b)), the cursor bound, whether the loop keeps the receiver's length —
+   so that changing the loop form, hoisting a bound, or splitting a loop into "common prefix, then tail" does not
+   invalidate the script.  The statements are fixed; only the search for their proof adapts. *)
 From Coq Require Import List ZArith NArith Lia Bool Arith.
 From V Require Import Lib.GoSem Proofs.GoSemFacts Gen.BitsCode Model.Bits.
 Import ListNotations.
